@@ -343,6 +343,9 @@ func tdQuoteBodyToProto(b []uint8) (*pb.TDQuoteBody, error) {
 
 func signedDataToProto(b []uint8) (*pb.Ecdsa256BitQuoteV4AuthData, error) {
 	data := clone(b) // Created an independent copy to make the interface less error-prone
+	if len(data) < signedDataCertificationDataStart {
+		return nil, fmt.Errorf("size of signed data is 0x%x. Expected minimum size of 0x%x", len(data), signedDataCertificationDataStart)
+	}
 	signedData := &pb.Ecdsa256BitQuoteV4AuthData{}
 	signedData.Signature = data[signedDataSignatureStart:signedDataSignatureEnd]
 	signedData.EcdsaAttestationKey = data[signedDataAttestationKeyStart:signedDataAttestationKeyEnd]
@@ -362,6 +365,9 @@ func signedDataToProto(b []uint8) (*pb.Ecdsa256BitQuoteV4AuthData, error) {
 
 func certificationDataToProto(b []uint8) (*pb.CertificationData, error) {
 	data := clone(b) // Created an independent copy to make the interface less error-prone
+	if len(data) < certificateDataStart {
+		return nil, fmt.Errorf("size of certification data is 0x%x. Expected minimum size of 0x%x", len(data), certificateDataStart)
+	}
 	certification := &pb.CertificationData{}
 
 	certification.CertificateDataType = uint32(binary.LittleEndian.Uint16(data[certificateDataTypeStart:certificateDataTypeEnd]))
@@ -386,6 +392,9 @@ func certificationDataToProto(b []uint8) (*pb.CertificationData, error) {
 
 func qeReportCertificationDataToProto(b []uint8) (*pb.QEReportCertificationData, error) {
 	data := clone(b) // Created an independent copy to make the interface less error-prone
+	if len(data) < qeReportCertificationDataAuthDataStart {
+		return nil, fmt.Errorf("size of QE report certification data is 0x%x. Expected minimum size of 0x%x", len(data), qeReportCertificationDataAuthDataStart)
+	}
 	qeReportCertificationData := &pb.QEReportCertificationData{}
 
 	enclaveReport, err := enclaveReportToProto(data[enclaveReportStart:enclaveReportEnd])
@@ -444,9 +453,15 @@ func enclaveReportToProto(b []uint8) (*pb.EnclaveReport, error) {
 func qeAuthDataToProto(b []uint8) (*pb.QeAuthData, uint32, error) {
 	data := clone(b) // Created an independent copy to make the interface less error-prone
 	authData := &pb.QeAuthData{}
+	if len(data) < authDataStart {
+		return nil, 0, fmt.Errorf("size of QE authentication data is 0x%x. Expected minimum size of 0x%x", len(data), authDataStart)
+	}
 
 	authData.ParsedDataSize = uint32(binary.LittleEndian.Uint16(data[authDataParsedDataSizeStart:authDataParsedDataSizeEnd]))
 	authDataEnd := authDataParsedDataSizeEnd + authData.GetParsedDataSize()
+	if uint32(len(data)) < authDataEnd {
+		return nil, 0, fmt.Errorf("size of QE authentication data is 0x%x. Expected minimum size of 0x%x", len(data), authDataEnd)
+	}
 	authData.Data = data[authDataStart:authDataEnd]
 	if err := checkQeAuthData(authData); err != nil {
 		return nil, 0, fmt.Errorf("parsing QE AuthData failed: %v", err)
@@ -456,6 +471,9 @@ func qeAuthDataToProto(b []uint8) (*pb.QeAuthData, uint32, error) {
 
 func pckCertificateChainToProto(b []uint8) (*pb.PCKCertificateChainData, error) {
 	data := clone(b) // Created an independent copy to make the interface less error-prone
+	if len(data) < pckCertChainDataStart {
+		return nil, fmt.Errorf("size of PCK certificate chain data is 0x%x. Expected minimum size of 0x%x", len(data), pckCertChainDataStart)
+	}
 	pckCertificateChain := &pb.PCKCertificateChainData{}
 
 	pckCertificateChain.CertificateDataType = uint32(binary.LittleEndian.Uint16(data[pckCertChainCertificationDataTypeStart:pckCertChainCertificationDataTypeEnd]))
